@@ -178,14 +178,15 @@ def exF6Late : List Action :=
 buckets 3…20) visits key 1 and reclaims it: gone from the store, cost released, reported once. -/
 theorem f6_regression_example :
     ((run exCfg (init exCfg 0) exF6Late).map fun s =>
-        (s.store.lookup 1#64, s.pol.used, (s.em.buckets.lookup 1).isSome,
-         (s.em.buckets.lookup 3).map (fun m => m.lookup 1#64), s.em.lastCleaned))
-      = some (some ⟨0#64, 7, 1000000000⟩, 1, false, some (some 0#64), 2) ∧
+        (s.store.lookup 1#64, s.pol.used, (s.em.buckets.lookup 1).isNone && s.em.lastCleaned == 2,
+         (s.em.buckets.lookup 3).map (fun m => m.lookup 1#64)))
+      = some (some ⟨0#64, 7, 1000000000⟩, 1, true, some (some 0#64)) ∧
     ((run exCfg (init exCfg 0)
         (exF6Late ++ [.tick 90000000000, .applier .selTick, .applier .none, .applier (.key 1#64), .applier .none,
           .applier .none, .applier .none, .applier .none])).map fun s =>
-        (s.store.lookup 1#64, s.pol.costs.lookup 1#64, s.pol.used, APc.isIdle s.app && s.em.lastCleaned == 20, s.log.take 2))
-      = some (none, none, 0, true, [.exit 7, .evict 1#64 0#64 7 1]) := by
+        ((s.store.lookup 1#64).isNone && (s.pol.costs.lookup 1#64).isNone && APc.isIdle s.app && s.em.lastCleaned == 20,
+         s.pol.used, s.log.take 2))
+      = some (true, 0, [.exit 7, .evict 1#64 0#64 7 1]) := by
   decide
 
 /-! ## Liveness -/
